@@ -294,9 +294,10 @@ theorem fp_suffix_swap_string_partial (puny : Str → Str) (lines : List Str) (g
         { ({ g.record po with hostname := ({ g with host := h₂ } : UrlG).hostname } : Parsed) with
           netloc := ({ g with host := h₂ } : UrlG).netloc } := rfl
     rw [h1, fpOfParsed_netloc]
-    exact fp_suffix_swap_plain (stringEnv puny id (SuffixTrie.build lines)) (stringEnv_acc puny _)
+    exact congrArg (Except.map Sum.inr)
+      (fp_suffix_swap_plain (stringEnv puny id (SuffixTrie.build lines)) (stringEnv_acc puny _)
       walkLaws_py lines rfl _ (g.record po) _ hs₁ hs₂ (portVal_ok hpo) hdf x₁ x₂ g₁ g₂ D S₁ S₂
-      hx₁ hx₂ hg₁ hg₂ hpl₁ hpl₂ hsp₁ hsp₂ hparts₁ hparts₂ hlen₁ hlen₂
+      hx₁ hx₂ hg₁ hg₂ hpl₁ hpl₂ hsp₁ hsp₂ hparts₁ hparts₂ hlen₁ hlen₂)
   exact ⟨e, fp_string_of_split puny _ true _ _ e⟩
 
 /-! ## surrounding white space and control characters: every string that parses -/
